@@ -258,6 +258,11 @@ def probeLine (line : String) : String :=
       | "plan.PlanForProviderKey" => "ok " ++ toHex (plan.PlanForProviderKey a i)
       | "node.NodeForPlanKey" => "ok " ++ toHex (node.NodeForPlanKey i a)
       | "deposit.DepositKey" => "ok " ++ toHex (deposit.DepositKey a)
+      | "node.ActiveNodeKey" => "ok " ++ toHex (node.ActiveNodeKey a)
+      | "node.InactiveNodeKey" => "ok " ++ toHex (node.InactiveNodeKey a)
+      | "provider.ActiveProviderKey" => "ok " ++ toHex (provider.ActiveProviderKey a)
+      | "provider.InactiveProviderKey" => "ok " ++ toHex (provider.InactiveProviderKey a)
+      | "plan.ActivePlanKey" => "ok " ++ toHex (plan.ActivePlanKey i)
       | _ => "bad-case"
     | "b32enc" => Hub.SDK.Bech32.runBech32Probe line
     | "b32dec" => Hub.SDK.Bech32.runBech32Probe line
